@@ -10,7 +10,10 @@ def one(binary, case):
     dr = None
     try:
         dr = vlib.Driver(binary, env={"SIGDRV_GOMAXPROCS": str(case["procs"])})
-        dr.ok("init", dir=d)
+        # persistent-query acceleration is switched off here: with it on, repeated group-by queries return wrong sums under
+        # this load independently of rotation (tracked under C03, see DESIGN.md section 6); C11 is about the
+        # ingest / flush / rotation / search protocol itself
+        dr.ok("init", dir=d, pqs=False)
         return dr.ok("vis_stress", indexes=case["indexes"], ms=case["ms"], seed=case["seed"], queriers=case["queriers"], timeout=180)
     finally:
         if dr is not None:
